@@ -65,7 +65,8 @@ pub struct Op {
     pub call: Option<Call>,
 }
 
-const POOL: &[&str] = &["X", "Y", "Count", "名前", "", "x y", "ｱ", "Info"];
+// "MID_Ａ" / "MID_ア": code-point order and Shift-JIS byte order disagree for this pair
+const POOL: &[&str] = &["X", "Y", "Count", "名前", "", "x y", "ｱ", "Info", "MID_Ａ", "MID_ア"];
 
 fn gen_cfg(_prop: &str, _tier: Tier, run_seed: u64) -> Value {
     let mut r = Rng::sub(run_seed, "cfg");
